@@ -145,6 +145,10 @@ def converge_and_check(acc, world, sel, case, meta, depth):
     """run R, every execution order, fixpoint checks, then perturbations (recursively to `depth`)."""
     cone, roots, rel = CW.cone_names(world, sel)
     with_outputs = {t.name for t in world.wf.targets if t.flat("outputs")}
+    rows_before = None
+    if sel and world.backend() != "local":
+        _rb, rows_before = gwf_status(world)  # a run restricted to one cone leaves the state of every other target as it was
+        acc.extra["invocations"] += 1
     r, subs, w1 = gwf_run(world, sel)
     acc.extra["invocations"] += 1
 
@@ -168,6 +172,10 @@ def converge_and_check(acc, world, sel, case, meta, depth):
         if rows is None:
             viol("status failed after drain", rs.as_dict())
             continue
+        if rows_before:
+            moved = {n: (rows_before.get(n), rows.get(n)) for n in rows if n not in cone and rows_before.get(n) != rows.get(n)}
+            if moved:
+                viol("a run restricted to a cone changed the status of targets outside it", dict(selection=sel, outside=moved), outside=True)
         notdone = sorted(n for n in cone & with_outputs if rows.get(n) != "completed")
         if notdone:
             viol("not completed after a successful run", dict(rows=rows, not_completed=notdone, files=wt.canon_files()), n=len(notdone))
@@ -266,7 +274,7 @@ def items(n, quick):
 QUICK = [
     dict(wf="fork", backend="slurm", accounting=True, hashing=False, sels=(None, ["B"]), depth=1),
     dict(wf="chain", backend="sge", accounting=True, hashing=False, sels=(None,), depth=1),
-    dict(wf="fork", backend="lsf", accounting=True, hashing=True, sels=(None,), depth=1),
+    dict(wf="fork", backend="lsf", accounting=True, hashing=True, sels=(None, ["B"]), depth=1),
     dict(wf="shortcut", backend="sge", accounting=True, hashing=False, sels=(None, ["X"]), depth=1, few=True),
     # jobs that give their outputs the time stamp of their newest input (ties everywhere)
     dict(wf="chain", backend="slurm", accounting=True, hashing=False, sels=(None,), depth=1, few=True, stamp="tie"),
